@@ -216,6 +216,7 @@ def run(ctx: Ctx) -> None:
                            rc == 0 and vals == ["true", "true"], (e or "")[-300:] + str(vals))
         histories(ctx, td, files)
         cache_and_concurrency(ctx, td, files)
+        hash_seeds(ctx, td, files)
     finally:
         shutil.rmtree(td, ignore_errors=True)
     ctx.resolve_broken({"process_state_inventory": "history:", "sort_perm_invariant": "file-order-matters", "partition_invariant": "grouping-matters",
@@ -276,6 +277,36 @@ def histories(ctx: Ctx, td: str, files: list[str]) -> None:
                        f"{[x for x in (got_i or []) if x not in (want[idx] or [])][:2]} / missing {[x for x in (want[idx] or []) if x not in (got_i or [])][:2]}",
                        {"history": name, "script": script[:3000], "run": idx + 1, "got": (got_i or [])[:40], "fresh": (want[idx] if idx < len(want) else None or [])[:40],
                         "n_got": len(got_i or []), "n_fresh": len(want[idx] or []) if idx < len(want) else None, "stderr": err[-500:]})
+
+
+def hash_seeds(ctx: Ctx, td: str, files: list[str]) -> None:
+    """The same command in fresh processes that differ only in the interpreter's string-hash seed (what a user
+    gets from one invocation to the next).  The settings exercise every set-valued option: several codes and
+    categories ignored, enabled and disabled, and amend tables naming several classifiers for one path."""
+    wd = Path(td) / "seeds"
+    wd.mkdir()
+    rels = [os.path.relpath(f, wd) for f in files]
+    base_rc, base, _ = L.cli([*rels, "--enable-all", "--quiet"], cwd=str(wd))
+    codes = sorted({l.split("[")[1].split("]")[0] for l in base.splitlines() if "[" in l})
+    configs = {
+        "amend-several-codes-one-path": '[tool.refurb]\nenable_all = true\n[[tool.refurb.amend]]\npath = ".."\nignore = %s\n' % json.dumps(codes[:6]),
+        "amend-two-tables-one-path": '[tool.refurb]\nenable_all = true\n' + "".join(
+            '[[tool.refurb.amend]]\npath = "../%s"\nignore = %s\n' % (sp, json.dumps(cs)) for sp, cs in ((".", codes[:2]), ("", codes[2:4] + ["#pathlib"]), ("./", codes[4:5] + ["#readability"]))),
+        "sets-everywhere": '[tool.refurb]\nignore = %s\ndisable = %s\nenable = %s\n' % (json.dumps(codes[:2] + ["#pathlib"]), json.dumps(codes[2:4] + ["#builtin"]), json.dumps(["FURB120", "FURB184", "#string"])),
+    }
+    seeds = ["0", "1", "2", "3", "5", "11", "1234", "random"]
+    for name, text in configs.items():
+        (wd / "cfg.toml").write_text(text)
+        with ThreadPoolExecutor(max_workers=8) as ex:
+            outs = list(ex.map(lambda sd: L.cli([*rels, "--config-file", "cfg.toml", "--quiet"], cwd=str(wd), env_extra={"PYTHONHASHSEED": sd}), seeds))
+        distinct = sorted({(o[0], o[1]) for o in outs}, key=lambda x: (len(x[1]), x[1]))
+        ctx.case(("hash-seed", name), nontrivial=True, sample={"config": name, "seeds": seeds, "distinct_reports": len(distinct), "lines": len(outs[0][1].splitlines())})
+        ctx.count("hash-seeds", len(seeds))
+        if len(distinct) > 1:
+            a, b2 = distinct[0][1].splitlines(), distinct[-1][1].splitlines()
+            ctx.report("history:hash-seed", f"the same command with config `{name}` prints {len(distinct)} different reports in fresh processes that differ only in PYTHONHASHSEED",
+                       {"config": text, "argv": [*rels, "--config-file", "cfg.toml", "--quiet"], "seeds": dict(zip(seeds, [len(o[1].splitlines()) for o in outs])),
+                        "only_in_some": sorted(set(a) ^ set(b2))[:6]})
 
 
 def cache_and_concurrency(ctx: Ctx, td: str, files: list[str]) -> None:
